@@ -172,6 +172,17 @@ pub fn shard_run(prop: &str, tier: &str, seed: u64, replay: Option<&serde_json::
                 eprintln!("T {} exec#{execs} random={random_phase} {:?}", scn.name, t_exec.elapsed());
             }
             match obs {
+                Err(e) if e.starts_with("deadlock:") => {
+                    let choices: Vec<usize> = taken.iter().map(|t| t.0).collect();
+                    out.found.push(Found {
+                        property: prop.to_string(),
+                        msg: format!("scenario {}: the overlapping requests never complete — every unfinished request is inside the server, none is suspended by the scheduler, for more than 10 s, twice in a row ({})", scn.name, &e[10..e.len().min(600)]),
+                        signature: format!("{prop}:requests-never-complete {}", scn.name),
+                        replay: json!({"origin": "e2", "case": *si, "scenario": scn.json(), "choices": choices}),
+                    });
+                    out.cov = cov;
+                    return out;
+                }
                 Err(e) => {
                     out.errors.push(format!("{}: {e}", scn.name));
                     break;
